@@ -553,9 +553,12 @@ class HistGen:
                 moves += ['ex', 'save', 'pop', 'publish'] if top[0] == 'P' else ['save', 'pop', 'publish']
         if rng.random() < self.wild:
             moves = ['im', 'ap', 'ex', 'mu', 'subst', 'mp', 'gen', 'inst0', 'ipat', 'pop', 'save', 'load', 'publish',
-                     'wildpub']
+                     'wildpub', 'inst_short', 'inst_perm', 'ipat_perm']
         m = rng.choice(moves)
         sh.trim()
+        if m in ('inst_short', 'inst_perm', 'ipat_perm'):
+            self.bad_instantiate(sh, calls, m)
+            return
 
         if m == 'atom':
             p = gen_pat(rng, 0, cfg)
@@ -736,6 +739,43 @@ class HistGen:
                     sh.published.append(t[1])
                     sh.mark_top()
 
+    def bad_instantiate(self, sh, calls, kind):
+        """instantiate / instantiate_pattern whose plugs on the stack do NOT match delta: too few of them
+        (`inst_short`: the static ProofExp.instantiate shape, proof pushed, plugs not or only partly
+        constructed), or all of them but in a permuted order / with one value repeated (`inst_perm`,
+        `ipat_perm`).  The tracker must refuse; the shadow is left as it is (the history ends here on a
+        correct tracker)."""
+        rng, cfg = self.rng, self.cfg
+        name, target = rng.choice([('p1', PROP1), ('p2', PROP2), ('p2', PROP2), ('qu', QUANT)])
+        if kind != 'inst_short' and len(metavars(target)) < 2:
+            name, target = 'p2', PROP2
+        ids = sorted(metavars(target))
+        rng.shuffle(ids)
+        vals = []
+        while len(vals) < len(ids):
+            v = gen_pat(rng, rng.choice([0, 0, 1]), cfg)
+            if v not in vals:
+                vals.append(v)
+        d = list(zip(ids, vals))
+        if kind == 'inst_short':
+            pushed = vals[:rng.randrange(len(vals))]            # 0 .. n-1 of the n plugs
+        else:
+            pushed = list(vals)
+            if rng.random() < 0.3:
+                i, j = rng.sample(range(len(pushed)), 2)
+                pushed[i] = pushed[j]                           # one value twice, another missing
+            else:
+                while pushed == vals:
+                    rng.shuffle(pushed)
+        for v in pushed:
+            build_calls(v, calls)
+        if kind == 'ipat_perm':
+            build_calls(target, calls)
+            calls.append(':'.join(['ip', show(target)] + delta_txt(d)))
+        else:
+            calls.append(name)
+            calls.append(':'.join(['in', show(target)] + delta_txt(d)))
+
     def phase_history(self, phase, n_moves, memory_axioms=()):
         """a history inside one phase from a fresh interpreter -> (claims, calls)"""
         sh = Shadow(phase)
@@ -748,7 +788,7 @@ class HistGen:
             claims = [gen_pat(self.rng, 1, self.cfg) for _ in range(self.rng.randrange(3))]
         return claims, calls, sh
 
-    def module_history(self, n_ax, n_cl, extra=0.15, permute=0.0, repeat_ax=0.0):
+    def module_history(self, n_ax, n_cl, extra=0.15, permute=0.0, repeat_ax=0.0, bad_inst=0.0):
         """gamma (axioms published), claims (reversed), proofs: the shape proof.py produces, with
         random extra moves in between (probability `extra` after each item) -> (claims, calls, shadow)"""
         rng, cfg = self.rng, self.cfg
@@ -760,6 +800,12 @@ class HistGen:
             while rng.random() < extra:
                 self.step(sh, calls, [a for a in axioms if ('T', a) in sh.memory])
 
+        def maybe_bad():
+            # at the START of a phase the stack is empty: the only place where too few plugs lie under the proof
+            if rng.random() < bad_inst:
+                self.bad_instantiate(sh, calls, rng.choice(['inst_short', 'inst_short', 'inst_perm', 'ipat_perm']))
+
+        maybe_bad()
         extras()
         for _ in range(n_ax):
             a = gen_pat(rng, rng.choice([1, 2, 2]), cfg)
@@ -827,6 +873,7 @@ class HistGen:
         sh.phase = 'P'
         sh.stack = []
         sh.residue = set()
+        maybe_bad()
         extras()
         order = list(proofs)
         if len(order) >= 2 and rng.random() < permute:
